@@ -354,7 +354,7 @@ func refactorSelfTest(p *Prog, c *Check, self string) {
 // in the temp directory (created on demand; the kernel drops the lock if the holder dies). If the
 // directory cannot be used the local bound alone applies.
 func acquireSlot() func() {
-	const slots = 10
+	const slots = 8
 	dir := filepath.Join(os.TempDir(), "shcheck-slots")
 	if err := os.MkdirAll(dir, 0o777); err != nil {
 		return func() {}
